@@ -15,12 +15,18 @@ def _run(pos, fmt, default_format, scheme):
         def __init__(self, path, *a, **k):
             self.path = path
 
-        def __enter__(self):
+        def acquire(self, timeout=None, poll_interval=0.05, **k):
             log.append(("acquire", self.path))
             return self
 
-        def __exit__(self, *a):
+        def release(self, force=False):
             log.append(("release", self.path))
+
+        def __enter__(self):
+            return self.acquire()
+
+        def __exit__(self, *a):
+            self.release()
             return False
 
     class RecPio(PyramidIO):
